@@ -254,6 +254,9 @@ def run(ck):
             ck.violation("compiled circuit violates a structural clause: " + bad, {"program": s})
     # 3. data-movement programs: zero AND gates
     mv = [movement_program(ck.rng) for _ in range(60 if quick else 1000)]
+    import lowertie
+    lowertie.tie_pass(ck, srcs[:80 if quick else 1500] + [("mv%d" % i, s) for i, s in enumerate(mv[:40 if quick else 600])],
+                      max_programs=120 if quick else 2100)
     mj = [f"(compile m{i} (src {quote(s)}))" for i, s in enumerate(mv)]
     mr = run_jobs(GVRUN, mj, "c15.m", timeout_per_job=3.0)
     mv_ok = 0
